@@ -34,7 +34,14 @@ INT_KEYS = [k for k, t in sigfile.KEY_TYPES.items() if t == "I"]
 DBL_KEYS = [k for k, t in sigfile.KEY_TYPES.items() if t == "d"]
 STR_KEYS = [k for k, t in sigfile.KEY_TYPES.items() if t == "str"]
 
-ascii_text = st.text(alphabet=st.characters(min_codepoint=32, max_codepoint=126), min_size=0, max_size=80)
+_plain = st.text(alphabet=st.characters(min_codepoint=32, max_codepoint=126), min_size=0, max_size=80)
+_pad = st.sampled_from(["", "", " ", "  ", "\t", "   "])
+# strings with significant leading/trailing blanks, empty and all-blank strings are generated on purpose
+ascii_text = st.one_of(
+    _plain,
+    st.builds(lambda a, t, b: (a + t + b)[:80], _pad, st.text(alphabet="ABCxyz019_-+. ", min_size=0, max_size=20), _pad),
+    st.sampled_from(["", " ", "  ", "J0534+2200", "B0531 ", " B0531", "PSR J1 ", "a b", "\tx", "x\t"]),
+)
 u32 = st.one_of(st.integers(0, 2**32 - 1), st.sampled_from([0, 1, 255, 256, 65535, 2**31, 2**32 - 1]))
 finite_d = st.one_of(
     st.floats(allow_nan=False, allow_infinity=False, width=64),
@@ -151,7 +158,10 @@ def strat_fields(draw):
         "nchans": draw(st.integers(1, 4096)), "nbits": nbits,
         "tsamp": draw(st.floats(1e-7, 10.0, allow_nan=False)),
         "tstart": draw(st.floats(40000.0, 70000.0, allow_nan=False)),
-        "source": draw(st.text(alphabet=st.characters(min_codepoint=33, max_codepoint=126), min_size=1, max_size=30)),
+        "source": draw(st.one_of(
+            st.text(alphabet=st.characters(min_codepoint=33, max_codepoint=126), min_size=1, max_size=30),
+            st.sampled_from(["J0534+2200 ", " B0531+21", "PSR B0531", "Crab  ", "a", " "]),
+            st.text(alphabet=st.characters(min_codepoint=32, max_codepoint=126), min_size=1, max_size=12))),
         "ibeam": draw(st.integers(0, 1000)), "nbeams": draw(st.integers(0, 1000)),
         "dm": draw(st.one_of(st.just(0.0), st.floats(0, 5000, allow_nan=False))),
         "az": draw(st.floats(0, 360, allow_nan=False, exclude_max=True)), "za": draw(st.floats(0, 90, allow_nan=False)),
@@ -298,6 +308,14 @@ def check_edit(case, ctx):
         raise Violation("edit:accepted-unencodable", f"key={key!r} value={value!r} accepted but the independent encoder cannot encode it: {exc!r}") from exc
     if after[: len(hdr)] != want:
         raise Violation("edit:header-not-exactly-key", f"key={key!r} value={value!r}\n want={want.hex()}\n got ={after[:len(hdr)].hex()}")
+    # the edited file parses back (library parser) to exactly the edited header
+    try:
+        reparsed = sigproc.parse_header(p)
+        re2 = sigproc.encode_header(reparsed)
+    except Exception as exc:  # noqa: BLE001
+        raise Violation("edit:reparse-raised", f"key={key!r} value={value!r}: {exc!r}") from exc
+    if re2 != want:
+        raise Violation("edit:reparse-differs", f"key={key!r} value={value!r}: parse->encode of the edited file differs from its header bytes; parsed {reparsed.get(key)!r}")
     return Info(True, ("rewritten", f"rewritten-{t}"))
 
 
